@@ -40,6 +40,14 @@ func factsPlacement() {
 		}
 	}
 	known("placement_shuffle_per_partition", "bool", b(shuffleInLoop), "rand.Shuffle is called inside the per-partition loop")
+	// Create writes the allocator's placement into the catalogue entry, partition by partition
+	if ct, cfd := bodyText("storage/dataset_manager.go", "DatasetManager", "Create"); cfd == nil {
+		unrec("create_uses_allocator_placement", "bool", "DatasetManager.Create not found")
+	} else {
+		known("create_uses_allocator_placement", "bool", b(strings.Contains(ct, "partitionsNodeIds := this.allocator.getPartitionsNodeIds(uint(dataset.GetPartitionCount()), uint(dataset.GetReplicationFactor()))") &&
+			strings.Contains(ct, "for i := 0; i < int(dataset.GetPartitionCount()); i++ { dataset.Partitions[i] = &pb.Partition{ Id: uuid.NewV4().Bytes(), NodeIds: partitionsNodeIds[i], } }") &&
+			strings.Count(ct, "NodeIds:") == 1 && strings.Count(ct, "partitionsNodeIds") == 2), "Create: one allocator placement per dataset, partition i gets partitionsNodeIds[i]")
+	}
 	var rhs ast.Expr
 	hasCopy := false
 	for _, s := range loop.Body.List {
